@@ -34,7 +34,9 @@ LEVEL_TEXT = ("Lean 4 theorems: (1) any two answers that satisfy the least-squar
               "same problem and a regularisation subset that resolves the defect coincide in x, v, v'Pv and A x, and "
               "any two generalised inverses give the same A Q A' — instantiated for the solver models whose C01 "
               "theorems exist; (2) if every solver model refuses exactly the non-resolving subsets, all four refuse the "
-              "same inputs; (3) the decision layer of LocalNetwork/gama-local (null_space point removal, huge-covariance "
+              "same inputs, and under one first-stage gap per algorithm plus the dichotomy SDich on (A,S) each of the four answers iff S "
+              "resolves the defect (C02_four_answered_iff_resolves; through LocalNetwork C02_net_four_answered_iff_resolves); "
+              "(3) the decision layer of LocalNetwork/gama-local (null_space point removal, huge-covariance "
               "loop, verdict of GeneralParameters), modelled as a function of the solver's answers only, returns equal "
               "removed points and verdicts for equal (defect, flagged unknowns, throw/no-throw), for every network size; "
               "a concrete witness shows the flags themselves may legitimately differ between algorithms. Tied to the "
@@ -52,10 +54,20 @@ LEVEL_NOTE = ("The per-solver premises are now FULL theorems of the solver model
               "C02_refusal_envsolve) and svd (C02_refusal_svd, C02_refusal_svdsolve; pair C02_refusal_gso_chol, "
               "C02_refusal_gso_svd) - each under its algorithm's second-stage premise (the S-norm its Gram-Schmidt / "
               "min_subset_x loop tests is exactly 0 or above the threshold; for svd stated as one exact hypothesis on (A,S,tol)); "
-              "the decision layer's worlds are derived from the solver models (Props/C02Agree.lean, C02AgreeEnv.lean). "
-              "Hypotheses that stay: each algorithm's own 'rank numerically unambiguous' reading on its trace (from an exact "
-              "gap of A'PA: Props/C01/Gap.lean, Gap2.lean), Resolves A S, convergence of the svd QR iteration (= Svd.decompose "
-              "returns), IEEE rounding. That the absolute sqrt(eps) pivot tolerance of the envelope / cholesky kernels "
+              "since rounds 7-8 ONE statement for the four solvers: answered => Resolves, margin => all four answer "
+              "(C02_four_refusal_band), answered iff Resolves under SDich (C02_four_answered_iff_resolves; LocalNetwork level "
+              "C02_net_four_answered_iff_resolves with two run-level premises: the svd iteration returns, Homogenization::run accepts "
+              "the blocks prepareProjectEquations accepted = C10-TINY); the facade pairs under ONE input-side hypothesis per algorithm "
+              "and without Resolves (InputGap = RankGap + thresholds for env/chol/gso, SingGap for svd: C02_same_net_gap, "
+              "C02_same_adj_gap), applied over R to two DIFFERENT algorithms on one LocalNetwork problem (C02_same_net_witness, "
+              "C02_same_net_svd_witness); the decision layer's worlds are derived from the solver models (Props/C02Agree.lean, "
+              "C02AgreeEnv.lean) and, round 7, from the EXECUTED models: project_equations() = PE.peWorld (drv_pe), solver object read "
+              "off netSolve (obsNet) - C02_decision_agree_single_point_of_project_equations, C02_decision_agree_of_first_of_project_equations "
+              "for any two of env/chol/gso (svd excluded: F7-svd), premises WorldHyp (on every configuration of the removal loop: NoAlias, "
+              "m0 != 0, covariance invertible, the algorithm's first- and second-stage unambiguity) and 'same first removal' (what F7 violates). "
+              "Hypotheses that stay: rank numerically unambiguous (as an exact gap of A'PA on the input: Props/C01/Gap.lean, Gap2.lean, "
+              "SvdGap.lean, InputGap.lean), WorldHyp for the removal loop (not yet one input-side hypothesis; not witnessed over R), "
+              "convergence of the svd QR iteration (= Svd.decompose returns), IEEE rounding. That the absolute sqrt(eps) pivot tolerance of the envelope / cholesky kernels "
               "does not scale with the weights is known finding F22 (C09-F2, C10-TINY, C19-envelope-defect-undercount elsewhere): "
               "there the algorithms legitimately differ on the real code. 'Tolerance "
               "proportional to conditioning' is tested (1e-8 x scale on generator-bounded conditioning), not proved.")
@@ -63,7 +75,7 @@ TECHNIQUE = "Lean 4 proof (uniqueness of the regularised least-squares solution;
 TRUSTED = ["scripted solver in harness/c02_netdecision.cpp replaces LocalNetwork::least_squares (test double, real LocalNetwork code)",
            "XML/text readers of gama-local output in tools/props/c02.py",
            "tools/lib/exact_verdict.py + gen_ls.reference: decide ls cases whose x / q_xx answers miss the fixed 1e-9 comparison on a demonstrably ill-conditioned problem (both sides against the exact solution; capped, counted)"]
-MODELLED = ["IEEE rounding", "project_equations/linearisation (abstract 'world' function in NetDecision)",
+MODELLED = ["IEEE rounding", "project_equations/linearisation: a parameter ('world') of NetDecision; the theorems instantiate it with the executed model PE.peWorld + obsNet, but the nd correspondence stream still drives the real null_space/GeneralParameters with a scripted table-driven world (no driver runs the composed world)",
             "printing of results (compared at the level of the XML documents)"]
 ASSUMPTIONS = ["rank numerically unambiguous (generators keep pivots 0 or O(1); networks on jittered grids)"]
 
